@@ -3,12 +3,15 @@
 package main
 
 import (
+	"encoding/json"
 	"flag"
 	"fmt"
 	"os"
+	"time"
 
 	"github.com/rs/zerolog"
 
+	"verif/harness/mgrd"
 	"verif/harness/sd"
 	"verif/harness/trace"
 )
@@ -22,6 +25,8 @@ func main() {
 	switch os.Args[1] {
 	case "shard":
 		cmdShard(os.Args[2:])
+	case "mgr":
+		cmdMgr(os.Args[2:])
 	default:
 		fmt.Fprintln(os.Stderr, "unknown command", os.Args[1])
 		os.Exit(2)
@@ -94,4 +99,42 @@ func cmdShard(args []string) {
 		}
 	}
 	fmt.Printf("{\"lines\":%d}\n", tw.N)
+}
+
+func cmdMgr(args []string) {
+	fs := flag.NewFlagSet("mgr", flag.ExitOnError)
+	beh := fs.String("behaviours", "", "file with one behaviour (JSON array of [action,arg]) per line")
+	out := fs.String("out", "trace.ndjson", "trace output")
+	dir := fs.String("dir", os.TempDir(), "scratch directory")
+	backups := fs.Bool("backups", false, "enable shard backups on unload")
+	stepMs := fs.Int("step-ms", 1500, "timeout per step in ms")
+	fs.Parse(args)
+	bs, err := mgrd.ReadBehaviours(*beh)
+	if err != nil {
+		fmt.Fprintln(os.Stderr, err)
+		os.Exit(2)
+	}
+	tw, err := trace.NewWriter(*out)
+	if err != nil {
+		fmt.Fprintln(os.Stderr, err)
+		os.Exit(2)
+	}
+	defer tw.Close()
+	drifted, stuck := 0, 0
+	var driftSamples []string
+	for i, b := range bs {
+		d, st := mgrd.Replay(i, b, *dir, tw, mgrd.Opts{StepTimeout: time.Duration(*stepMs) * time.Millisecond, Backups: *backups})
+		if len(d) > 0 {
+			drifted++
+			if len(driftSamples) < 5 {
+				driftSamples = append(driftSamples, fmt.Sprintf("b%d: %v", i, d))
+			}
+		}
+		if st {
+			stuck++
+		}
+	}
+	tw.Flush()
+	res, _ := json.Marshal(map[string]any{"behaviours": len(bs), "drifted": drifted, "stuck": stuck, "lines": tw.N, "drift_samples": driftSamples})
+	fmt.Println(string(res))
 }
